@@ -22,6 +22,49 @@ add('C01', 'exploration', 'exhaustive enumeration of the finite message space + 
     'are visible. Exhaustive for the finite part, sampled for sysex length/content and time values.',
     TRUST + ' Sysex payloads beyond 100,000 bytes and NaN/inf times are not explored.')
 
+add('C02', 'exploration', 'exhaustive enumeration of short byte strings + Hypothesis mutation, recogniser oracle',
+    'thorough enumerates all 16,843,009 byte strings of length 0..3 (quick: lengths 0..2 complete, length 3..5 over '
+    'boundary alphabets); Hypothesis mutates valid encodings and injects out-of-range / non-integer items; from_hex over '
+    'spaced and malformed text. An independent single-message recogniser decides accept/reject and the exception type.',
+    TRUST + ' Strings longer than 3 bytes are sampled, not enumerated (sysex is the only unbounded case).')
+add('C03', 'exploration', 'exhaustive attribute x value x entry-point grid + Hypothesis rule-based state machine, domain-table oracle',
+    'The grid over every attribute of every type, a boundary/ill-typed value pool and every entry point is enumerated '
+    'completely; a RuleBasedStateMachine explores histories of accepted and rejected operations on one object against a '
+    'dict model, checking validity, unchanged state after rejection and immutability of type/attribute set after every step.',
+    TRUST + ' Values outside the pool (other ill-typed objects) and bool are not generated.')
+add('C04', 'exploration', 'exhaustive class-alphabet enumeration + Hypothesis streams, soundness invariants',
+    'All strings over a 14-letter byte-class alphabet up to length 5 (quick) / 6 (thorough) plus long drawn streams '
+    'through every parser entry point; invariants: no exception, valid messages, real-time one-to-one, other messages a '
+    'subsequence of the input, parse() == head of parse_all().',
+    TRUST + ' One representative per byte class stands for its class in the exhaustive part; drawn streams use all bytes.')
+add('C05', 'exploration', 'Hypothesis rule-based state machine + exhaustive cut enumeration, prefix-model metamorphic oracle',
+    'State machine over feed/feed_byte/get_message/pending/iteration (nested, abandoned, while feeding) for Parser and '
+    'ParserQueue against the model "messages so far == parse_all(prefix fed)"; all single and double cuts of all 5,832 '
+    'three-message streams.',
+    TRUST + ' parse_all on whole input is the reference (held to C04/C06).')
+add('C06', 'exploration', 'exhaustive prefix x message enumeration + Hypothesis, metamorphic oracle with reference encoder',
+    'All class-alphabet prefixes up to length 3/4 and all proper prefixes of real encodings x all 18 types at two value '
+    'settings; drawn prefixes/concatenations; real-time bytes at every interior position of sysex (1 and 2 insertions '
+    'exhaustive, many drawn). Encodings come from the independent encoder.',
+    TRUST)
+add('C07', 'exploration', 'Hypothesis file generation + byte mutation, round-trip / refusal / fixed-point oracles',
+    'Generated files (all event kinds, running-status runs and breaks, VLQ-boundary deltas, end_of_track anywhere) are '
+    'saved, reloaded and compared with the reference canonical form; injected unstorable items must be refused with '
+    'ValueError; byte-mutated and non-canonically encoded files that load must be fixed points of load-save-load.',
+    TRUST + ' A load that raises makes no claim. Known-finding classes of C09 (smpte hours > 31, list-valued '
+    'sequencer data) are not generated here.')
+add('C08', 'exploration', 'Hypothesis + independent strict SMF decoder / encoder (differential oracle in both directions)',
+    'save() output is decoded by an independent strict decoder that flags every conformance problem and must reproduce '
+    'the reference event list; reference-encoded alternative encodings (running status subsets, padded VLQs, long header) '
+    'must load identically under debug x clip; corrupted data bytes exercise the clip clause.',
+    TRUST + ' Deltas <= 0x0FFFFFFF; escape (F7) events are not generated.')
+add('C09', 'exploration', 'exhaustive enumeration of finite meta domains + Hypothesis, reference payload codec',
+    'Every value of the finite documented domains and boundary/outside values for the rest, through constructor and '
+    'assignment; byte layout compared with an independent payload encoder, from_bytes and track reading must give back '
+    'an equal message; outside values must be rejected. Two recorded findings (KF-C09-c, KF-C09-d) are excluded by '
+    'construction and counted.',
+    TRUST + ' Text is latin-1 here; charsets are C17.')
+
 NOT_YET = {}
 
 
